@@ -59,7 +59,7 @@ ASSUMPTIONS = [
     "an upstream BBOX with minx >= maxx or miny >= maxy (or a non-positive size) is not a bounding box inside anything: "
     "flagged as bbox/invalid",
     "no-call (coverage): only queries whose densified footprint in the coverage SRS is more than 2 px away from the "
-    "coverage bbox are judged; nearer ones, queries outside the world rectangle of their SRS and footprints without a "
+    "coverage bbox - for polygon coverages: whose footprint envelope is more than 2 px away from the polygon itself - are judged; nearer ones, queries outside the world rectangle of their SRS and footprints without a "
     "finite image are don't-care",
     "no-call (resolution): resolution = bbox extent / size in SRS units, degrees * 111319.49 m; limits +-1e-4 "
     "(projected) / +-2e-3 (geographic: the constant is not in the documentation) are don't-care; queries whose x and "
@@ -706,6 +706,22 @@ def cov_relation(cov, asked):
         return 'disjoint'
     if gap > -2 * px:
         return 'near'
+    if cov.get('kind') == 'poly':
+        # inside / across the bounding box of a polygon coverage: the geometry decides (2 px band as above)
+        import shapely.geometry as sg
+        try:
+            # (the envelope of the footprint, not the footprint: MapProxy tests the transformed bounding box, a query whose
+            # envelope reaches the polygon may be passed on)
+            fpp = sg.box(*fp)
+            geom = sg.Polygon([tuple(p_) for p_ in cov['poly']])
+            if fpp.is_valid and geom.is_valid and not fpp.is_empty:
+                dist = fpp.distance(geom)
+                if dist > 2 * px:
+                    return 'disjoint'
+                if not fpp.buffer(-2 * px).intersects(geom.buffer(-2 * px)):
+                    return 'near'
+        except Exception:
+            return 'undefined'
     if fp[0] >= cb[0] and fp[1] >= cb[1] and fp[2] <= cb[2] and fp[3] <= cb[3]:
         return 'inside'
     return 'partial'
@@ -961,8 +977,16 @@ def place_bbox(rng, src, srs, rx, ry, size, near=False):
         ry = rx = eh * rng.uniform(1.2, 2.5) / size[1]
         w, h = size[0] * rx, size[1] * ry
     mode = 'near' if near else rng.choice(['inside', 'inside', 'partial', 'partial', 'near', 'near', 'far'])
+    if cov.get('kind') == 'poly' and not near and rng.random() < 0.3:
+        mode = 'corner'
     ecx, ecy = (env[0] + env[2]) / 2, (env[1] + env[3]) / 2
-    if mode == 'inside':
+    if mode == 'corner':
+        # inside the bounding box of a polygon coverage, outside the polygon: a small query in a corner of the box
+        rx = ry = min(ew, eh) * rng.uniform(0.04, 0.12) / max(size)
+        w, h = size[0] * rx, size[1] * ry
+        cx = rng.choice([env[0] + w / 2 + 0.01 * ew, env[2] - w / 2 - 0.01 * ew])
+        cy = rng.choice([env[1] + h / 2 + 0.01 * eh, env[3] - h / 2 - 0.01 * eh])
+    elif mode == 'inside':
         cx, cy = ecx + rng.uniform(-0.25, 0.25) * ew, ecy + rng.uniform(-0.25, 0.25) * eh
     elif mode == 'partial':
         cx = rng.choice([env[0], env[2], ecx]) + rng.uniform(-0.3, 0.3) * w
